@@ -537,7 +537,8 @@ class TaskStateMachine(object):
 
             # If the task is no longer staged, the task is already completed and
             # this is a late report of an item. There is no other item to evaluate.
-            if not staged_task:
+            # The same applies if the task is staged again for a retry and has no items yet.
+            if not staged_task or "items" not in staged_task:
                 return action_event
 
             items = json_util.deepcopy(staged_task["items"])
